@@ -1,3 +1,62 @@
-(* C05 - placeholder while the invariant is built *)
-From Tramp Require Import Model.Base Model.Sys.
-Theorem C05_placeholder : True. Proof. exact I. Qed.
+(* C05 — at most one outgoing attempt live per hash; a paid invoice is never paid again.
+
+   "For a given payment hash the plugin never issues a pay request while an earlier outgoing attempt for that hash
+    still has pending parts or has completed, including after a restart that interrupted the earlier attempt. Once
+    the invoice has been paid, later HTLCs for it are settled from the known preimage without paying again."
+
+   Histories as in C08: any durable start image respecting write-ahead, any interleaving (a new HTLC set arriving while
+   the previous lifecycle is still finishing its bookkeeping included: the model runs any number of lifecycles of the
+   hash side by side), crashes anywhere, faults on every write and on pay; no injected error on a read rpc. *)
+From Tramp Require Import Model.Base Model.Fee Model.Classify Model.Node Model.Provider Model.ProviderSys Model.Sys.
+From Tramp Require Import Proofs.SysBasics Proofs.SysShape Proofs.SysTheorems Proofs.SysReach Proofs.SysCalls Proofs.SysNode Proofs.SysSafety.
+
+(* when a pay request is issued: every earlier part has failed (none pending, none complete) and no pay command runs *)
+Theorem C05_pay_only_when_nothing_live : forall c n t0 h0 a0 evs ev cid b am mf md rt,
+  node_ok n -> hist_wf c (sys_start n t0 h0 a0) evs ->
+  let s := after c n t0 h0 a0 evs in
+  In (OCall cid (QPay b am mf md rt)) (snd (step c s ev)) ->
+  all_failed (parts (nd s)) /\ payrun (nd s) = 0.
+Proof.
+  intros c n t0 h0 a0 evs ev cid b am mf md rt Hn Hwf s Hin.
+  exact (proj1 (pay_only_when_quiet c s ev cid b am mf md rt (after_wreach c n t0 h0 a0 evs Hn Hwf) Hin)).
+Qed.
+
+(* at most one pay request is outstanding (unprocessed, running, or answered and not yet consumed) at any instant *)
+Theorem C05_one_pay_at_a_time : forall c n t0 h0 a0 evs k1 k2 cl1 cl2,
+  node_ok n -> hist_wf c (sys_start n t0 h0 a0) evs ->
+  let s := after c n t0 h0 a0 evs in
+  nth_error (calls s) k1 = Some cl1 -> nth_error (calls s) k2 = Some cl2 ->
+  is_pay (c_rpc cl1) = true -> is_pay (c_rpc cl2) = true -> live (c_st cl1) -> live (c_st cl2) -> k1 = k2.
+Proof. intros c n t0 h0 a0 evs k1 k2 cl1 cl2 Hn Hwf. exact (one_pay_at_a_time c _ k1 k2 cl1 cl2 (after_wreach c n t0 h0 a0 evs Hn Hwf)). Qed.
+
+(* once a part has completed (the invoice is paid) no pay request is ever issued again, whatever happens later *)
+Theorem C05_paid_never_paid_again : forall c n t0 h0 a0 evs evs' ev p cid b am mf md rt,
+  node_ok n -> hist_wf c (sys_start n t0 h0 a0) (evs ++ evs') ->
+  has_done p (parts (nd (after c n t0 h0 a0 evs))) ->
+  ~ In (OCall cid (QPay b am mf md rt)) (snd (step c (after c n t0 h0 a0 (evs ++ evs')) ev)).
+Proof.
+  intros c n t0 h0 a0 evs evs' ev p cid b am mf md rt Hn Hwf Hd Hin.
+  pose proof (pay_only_when_quiet c _ ev cid b am mf md rt (after_wreach c n t0 h0 a0 (evs ++ evs') Hn Hwf) Hin) as ((Haf & _) & _).
+  apply (has_done_not_all_failed p _ ) in Haf; [exact Haf|].
+  unfold after in *. 
+  assert (R : forall l1 l2 s0, fst (run c s0 (l1 ++ l2)) = fst (run c (fst (run c s0 l1)) l2)).
+  { induction l1 as [|e r IH]; intros l2 s0; cbn [app run]; [reflexivity|].
+    destruct (step c s0 e) as [s1 o]. specialize (IH l2 s1). destruct (run c s1 (r ++ l2)) as [sa oa]. destruct (run c s1 r) as [sb ob]. cbn [fst] in *. exact IH. }
+  rewrite R. apply has_done_run. exact Hd.
+Qed.
+
+(* a lifecycle that finds the Succeeded record settles every held HTLC with the recorded preimage and issues no rpc at all *)
+Theorem C05_settled_from_record : forall c li base tnow k pr g,
+  lc_shape c li base tnow (PFetch k) k (YState (Some (DSucc pr, g))) = Some (LResolve (Resolve pr) PEnd [] []).
+Proof. intros. unfold lc_shape. rewrite Nat.eqb_refl. reflexivity. Qed.
+
+(* non-vacuity: a pay request is issued on a fresh hash; and a restart on Pending with a completed part settles instead of paying *)
+Example C05_nonvacuous :
+  let c := {| mpp_ms := 60000; pol := {| fee_base := 0; fee_ppm := 0; pol_delta := 40 |}; cltv_delta := 6; retry_for := 60 |} in
+  let h := {| hid := 7; blob := [1]; deliver := 10; inv_amount := Some 10; amt := 10; total := 10; expiry := 1000; rel := 100%Z |} in
+  let evs := [EvHtlc h; EvProcess 0 NoFault; EvDeliver 0 true; EvProcess 1 NoFault; EvDeliver 1 true; EvProcess 2 NoFault] in
+  snd (step c (after c node0 0 0 0 evs) (EvDeliver 2 true)) = [OCall 3 (QPay [1] None 0 40 60)] /\
+  let n1 := {| ds := Some (DPending 0 0, 0); atts := []; parts := [PDone [9]]; payrun := 0 |} in
+  let evs1 := [EvHtlc h; EvProcess 0 NoFault; EvDeliver 0 true; EvProcess 1 NoFault; EvDeliver 1 true; EvProcess 2 NoFault] in
+  resps (snd (step c (after c n1 0 0 0 evs1) (EvDeliver 2 true))) = [OResp 7 (Resolve [9])].
+Proof. vm_compute. split; reflexivity. Qed.
